@@ -17,6 +17,15 @@ type Clause struct {
 	SafetyOnly bool // sensures / safetyinv: proved and used in safety mode only
 }
 
+// GuardDecl: how concurrent access to a struct field is excluded.
+type GuardDecl struct {
+	Kind   string // guarded (by the object's mutex) | confined (to goroutine roots) | immutable | atomicfield | unshared
+	Field  string // "Struct.field"
+	Roots  []string
+	Reason string
+	Line   int
+}
+
 type LoopSpec struct {
 	Steps      []Clause // relations between the state at the head of an iteration (prev(..)) and at its end
 	Invariants []Clause
@@ -25,25 +34,26 @@ type LoopSpec struct {
 }
 
 type Contract struct {
-	Key      string // "(*T).Method", "Func", or "Iface.Method" for interface contracts
-	Iface    bool
-	Requires []Clause
-	Assumed  []Clause // data-structure invariants assumed at entry, not demanded from callers (listed as assumptions)
-	Ensures  []Clause
-	Modifies []Clause // each a location expression
-	HasMod   bool     // a modifies clause was given (possibly "nothing")
-	Loops    map[int]*LoopSpec
-	Uses     []string // prelude chunks forced into this function's own queries
-	Assumes  []string // labels of global invariants assumed at entry
-	Events   []Clause // call-event ghosts: "event <ghost>: <expr>" appended at every call site
-	REvents  []Clause // like Events but the expression is evaluated over the results / post-state
-	Trusted  bool     // contract is assumed, body not checked against it
-	Reason   string
-	Props    []string
-	Safety   bool // also generate safety obligations when verifying this function
-	BorrowedResult string // name of the *bufio.Reader parameter whose buffer the first result may alias
-	NoInline bool
-	Line     int
+	Key            string // "(*T).Method", "Func", or "Iface.Method" for interface contracts
+	Iface          bool
+	Requires       []Clause
+	Assumed        []Clause // data-structure invariants assumed at entry, not demanded from callers (listed as assumptions)
+	Ensures        []Clause
+	Modifies       []Clause // each a location expression
+	HasMod         bool     // a modifies clause was given (possibly "nothing")
+	Loops          map[int]*LoopSpec
+	Uses           []string // prelude chunks forced into this function's own queries
+	Assumes        []string // labels of global invariants assumed at entry
+	Events         []Clause // call-event ghosts: "event <ghost>: <expr>" appended at every call site
+	REvents        []Clause // like Events but the expression is evaluated over the results / post-state
+	Trusted        bool     // contract is assumed, body not checked against it
+	Reason         string
+	Props          []string
+	Safety         bool     // also generate safety obligations when verifying this function
+	Holds          []string // parameters whose mutex the caller holds (assumed at entry, checked at call sites in lock-check mode)
+	BorrowedResult string   // name of the *bufio.Reader parameter whose buffer the first result may alias
+	NoInline       bool
+	Line           int
 }
 
 type GlobalInv struct {
@@ -57,17 +67,18 @@ type ContractSet struct {
 	GlobalInvs []GlobalInv
 	Lemmas     []Clause // SMT-level lemmas stated over spec functions (proved once)
 	TypeInvs   map[string][]Clause
-	FieldInvs  map[string][]Clause // "Struct.field" -> invariants over $v (assumed at loads, proved at stores)
-	ChanInvs   map[string][]Clause // invariant of the values travelling on channels of an element type: proved at sends, assumed at receives
-	FieldAsms  map[string][]Clause // lifecycle / configuration facts: assumed at loads in safety mode, never proved
+	FieldInvs  map[string][]Clause   // "Struct.field" -> invariants over $v (assumed at loads, proved at stores)
+	Guards     map[string]*GuardDecl // synchronisation discipline per struct field (C09)
+	ChanInvs   map[string][]Clause   // invariant of the values travelling on channels of an element type: proved at sends, assumed at receives
+	FieldAsms  map[string][]Clause   // lifecycle / configuration facts: assumed at loads in safety mode, never proved
 	Files      []string
 }
 
-var clauseKw = regexp.MustCompile(`^(func|iface|callback|spawn|fieldassume|fieldinv|safetyinv|sensures|srequires|borrowed-result|chaninv|revent|event|step|uses|assumes|assume|requires|ensures|modifies|loop|invariant|decreases|unroll|trusted|props|safety|noinline|global-invariant|lemma|typeinv|end)\b`)
+var clauseKw = regexp.MustCompile(`^(func|iface|callback|spawn|fieldassume|fieldinv|safetyinv|sensures|srequires|borrowed-result|chaninv|guarded|confined|immutable|atomicfield|unshared|holds|revent|event|step|uses|assumes|assume|requires|ensures|modifies|loop|invariant|decreases|unroll|trusted|props|safety|noinline|global-invariant|lemma|typeinv|end)\b`)
 
 // LoadContracts reads //@ comment blocks from the given files.
 func LoadContracts(files ...string) (*ContractSet, error) {
-	cs := &ContractSet{Funcs: map[string]*Contract{}, TypeInvs: map[string][]Clause{}, FieldInvs: map[string][]Clause{}, FieldAsms: map[string][]Clause{}, ChanInvs: map[string][]Clause{}, Files: files}
+	cs := &ContractSet{Funcs: map[string]*Contract{}, TypeInvs: map[string][]Clause{}, FieldInvs: map[string][]Clause{}, FieldAsms: map[string][]Clause{}, ChanInvs: map[string][]Clause{}, Guards: map[string]*GuardDecl{}, Files: files}
 	for _, f := range files {
 		if err := cs.loadFile(f); err != nil {
 			return nil, err
@@ -158,6 +169,23 @@ func (cs *ContractSet) loadFile(path string) error {
 				return err
 			}
 			cs.Lemmas = append(cs.Lemmas, c)
+		case "guarded", "confined", "immutable", "atomicfield", "unshared":
+			// guarded T.f | confined T.f: root, root | immutable T.f | atomicfield T.f | unshared T.f: reason
+			txt := strings.TrimSpace(r.text)
+			rest := ""
+			if i := strings.Index(txt, ":"); i >= 0 {
+				rest = strings.TrimSpace(txt[i+1:])
+				txt = strings.TrimSpace(txt[:i])
+			}
+			gd := &GuardDecl{Kind: r.kw, Field: txt, Line: r.line}
+			if r.kw == "confined" {
+				for _, x := range splitTop(rest) {
+					gd.Roots = append(gd.Roots, strings.TrimSpace(x))
+				}
+			} else {
+				gd.Reason = rest
+			}
+			cs.Guards[txt] = gd
 		case "chaninv":
 			idx := strings.Index(r.text, ":")
 			if idx < 0 {
@@ -279,6 +307,8 @@ func (cs *ContractSet) loadFile(path string) error {
 				cur.Props = append(cur.Props, strings.Fields(strings.ReplaceAll(r.text, ",", " "))...)
 			case "safety":
 				cur.Safety = true
+			case "holds":
+				cur.Holds = append(cur.Holds, strings.Fields(strings.ReplaceAll(r.text, ",", " "))...)
 			case "noinline":
 				cur.NoInline = true
 			case "borrowed-result":
@@ -339,4 +369,11 @@ func (c *Contract) safetyOnly() bool {
 		n++
 	}
 	return n > 0
+}
+
+// holdsOnly: the contract says nothing but which mutexes the caller holds: the function is still inlined or
+// summarised as if it had no contract.
+func (c *Contract) holdsOnly() bool {
+	return c != nil && len(c.Holds) > 0 && !c.HasMod && !c.Trusted && !c.NoInline && len(c.Modifies) == 0 && len(c.Events) == 0 &&
+		len(c.REvents) == 0 && len(c.Loops) == 0 && len(c.Assumed) == 0 && len(c.Requires) == 0 && len(c.Ensures) == 0
 }
